@@ -56,6 +56,9 @@ func c17Exec(c *c17Case) c17Outcome {
 	srv.Auth = c05Auth
 	srv.TLS = serverTLS(0)
 	d := &refsmtp.Dialer{Srv: srv, PipeCap: pipeCap}
+	if c.Cfg.Fallback {
+		d.FailDial = 1 // the primary port refuses the connection; the dialogue runs on the fallback port
+	}
 	defer d.Shutdown()
 	cl, err := mail.NewClient(refHost, c.Cfg.options(d)...)
 	if err != nil {
@@ -187,13 +190,23 @@ func c17Configs() []c17Case {
 			}
 		}
 	}
+	// the fallback-port path: the primary dial is refused, the stall happens on the fallback connection
+	for _, st := range []string{"greet", "ehlo#1", "starttls", "tlshandshake", "ehlo#2", "noop#1", "mail#1", "data#1", "content", "eod#1", "quit"} {
+		cfg := smtpCfg{TLS: "opportunistic", Fallback: true}
+		caps := []string{"STARTTLS", "8BITMIME"}
+		call := "dialandsend"
+		out = append(out, c17Case{Cfg: cfg, Caps: caps, StallStep: st, Call: call})
+		if st == "greet" || st == "ehlo#1" || st == "starttls" || st == "tlshandshake" || st == "ehlo#2" {
+			out = append(out, c17Case{Cfg: cfg, Caps: caps, StallStep: st, Call: "dial"})
+		}
+	}
 	return out
 }
 
 func c17Describe() {
 	rec := core.Rec("C17")
 	rec.Rule = "enumerated stall points: the reference server goes silent (connection held open) at {greeting, EHLO reply, STARTTLS reply, during the TLS handshake, second EHLO, the AUTH command, the first and second challenge of the exchange, NOOP, MAIL, first and second RCPT, DATA, inside the message content (server stops reading; bounded in-memory buffer so the writer blocks), end-of-data reply, the NOOP/RSET after delivery, QUIT} " +
-		"x TLS policy {none, mandatory} x auth {none, PLAIN, LOGIN, CRAM-MD5, SCRAM-SHA-256} x call {DialWithContext, DialAndSend, Send, Reset} x configured timeout (100 ms in quick; 100/200/400 ms in thorough). " +
+		"x TLS policy {none, mandatory} x auth {none, PLAIN, LOGIN, CRAM-MD5, SCRAM-SHA-256} x call {DialWithContext, DialAndSend, Send, Reset}, plus the same stall points on a connection obtained through the fallback port (primary dial refused), x configured timeout (100 ms in quick; 100/200/400 ms in thorough). " +
 		"Oracle: the call returns a non-nil error within max(20 x timeout, 15 s); a miss is re-run twice in isolation and only reported if it repeats. Non-trivial: every case whose stall point is actually reached; distinct by (call, stall point, policy, auth, timeout)."
 	rec.Assumptions = []string{"real clocks: the bound is >= 20x the configured timeout and at least 15 s (closing a TLS connection to a peer that no longer reads may itself take 5 s in crypto/tls)", "in-memory transport through WithDialContextFunc (deadline support implemented by the harness connection)", "boundedness is shown only for the enumerated stall points"}
 }
